@@ -58,7 +58,11 @@ Helpers == {"client.Discover", "rp.NewRelyingPartyOIDC", "rp.CodeExchange", "rp.
             "rp.DeviceAuthorization", "rp.DeviceAccessToken", "rp.remoteKeySet", "rs.NewResourceServer", "rs.Introspect", "tokenexchange.ExchangeToken", "client.JWTProfileExchange"}
 Statuses == {200, 204, 302, 400, 401, 500}
 \* stall: the provider takes the request and does not answer (the caller's deadline, or a network time-out, ends it)
-Bodies == {"empty", "null", "array", "number", "string", "emptyObject", "truncated", "wrongTyped", "errorDoc", "html", "valid", "stall"}
+\* validPlus*: the document the helper expects, in which ONE optional member has another JSON type than the specification gives it
+\* (id_token as number / object / array / boolean, refresh_token as number, expires_in as string, scope as number)
+Bodies == {"empty", "null", "array", "number", "string", "emptyObject", "truncated", "wrongTyped", "errorDoc", "html", "valid", "stall",
+           "validPlusIdTokenNumber", "validPlusIdTokenObject", "validPlusIdTokenArray", "validPlusIdTokenBool", "validPlusRefreshNumber",
+           "validPlusExpiresString", "validPlusScopeNumber"}
 ClientCases == {[kind |-> "client", helper |-> h, status |-> s, body |-> b] : h \in Helpers, s \in Statuses, b \in Bodies}
 
 Groups == {"http", "verify", "decode", "client"}
